@@ -70,4 +70,14 @@ PROPS = {
         "exhaustive": {"quick": False, "thorough": False},
         "floor": {"quick": 3000, "thorough": 50000},
     },
+    "C04": {
+        "modes": ["dbg"],
+        "level": "exploration",
+        "technique": "runtime monitoring: strict independent parsers (TPKT/X.224/MCS-PER/BER/GCC/info packet/share headers/capability sets/input PDU/TSRequest DER/NTLM field tables) applied to every frame the client writes in full sessions against the reference server",
+        "level_text": "Full sessions (connect, activation, input events, reactivation, shutdown) are run on the real client with names, domains, users and passwords drawn from all of Unicode (empty, ASCII, Latin-1, BMP multi-byte, surrogate pairs), client names of every length 0..23 UTF-16 units around the 32-byte field, and credential sizes sweeping the PER length boundary of the MCS send-data request, on a plain transport and over TLS with CredSSP. Every client frame and token is parsed by the reference server's strict parsers: each length/count must equal what it describes, fixed fields must have their size, strings must be terminated as specified, nothing may trail.",
+        "level_note": "Trusted: refs::proto / refs::ber / refs::per / refs::cssp / refs::ntlm strict parsers. Not asserted (left loose by the specification or ignored by peers): uncompressedLength, synchronize targetUser, streamId, sourceDescriptor content.",
+        "rule": ("cases = (Unicode connector configuration, server profile, transport); a case is non-trivial when at least the 7 connection-sequence frames were parsed; distinct = hash of the case descriptor. Evidence counts the client frames parsed."),
+        "assumptions": [],
+        "floor": {"quick": 5000, "thorough": 100000},
+    },
 }
